@@ -193,10 +193,33 @@ def reader_rules(ctx, R):
                 ctx.violation("M6", rd, "chunk-consumed-inline", "the result of recv is consumed inside %s" % norm(st)[:60], node=c)
                 continue
             bad = []
+            # the chunk may travel through plain copies (`nval = data`): every copy is held to the same discipline
+            cvs = {cv}
+            grew = True
+            while grew:
+                grew = False
+                for a_ in walk_no_nested(rd.node):
+                    if isinstance(a_, ast.Assign) and isinstance(a_.value, ast.Name) and a_.value.id in cvs and len(a_.targets) == 1 \
+                            and isinstance(a_.targets[0], ast.Name) and a_.targets[0].id not in cvs:
+                        cvs.add(a_.targets[0].id)
+                        grew = True
             for n_ in walk_no_nested(rd.node):
-                if isinstance(n_, ast.Name) and n_.id == cv and isinstance(n_.ctx, ast.Load):
+                if isinstance(n_, ast.Name) and n_.id in cvs and isinstance(n_.ctx, ast.Load):
                     p_ = n_._parent
                     ok = False
+                    if isinstance(p_, ast.Assign) and p_.value is n_ and len(p_.targets) == 1 and isinstance(p_.targets[0], ast.Name):
+                        ok = True  # a copy (followed above)
+                    # shown as it is in a debug line: `%r` / repr() / !r never look inside the bytes
+                    q_ = p_
+                    if isinstance(q_, ast.Tuple):
+                        q_ = q_._parent
+                    if isinstance(q_, ast.BinOp) and isinstance(q_.op, ast.Mod) and isinstance(q_.left, ast.Constant) and isinstance(q_.left.value, str) \
+                            and "%s" not in q_.left.value and "%r" in q_.left.value and isinstance(q_._parent, ast.Call) and "print" in (call_name(q_._parent) or ""):
+                        ok = True
+                    if isinstance(p_, ast.FormattedValue) and p_.conversion == 114:
+                        ok = True
+                    if isinstance(p_, ast.Call) and isinstance(p_.func, ast.Name) and p_.func.id == "repr":
+                        ok = True
                     if isinstance(p_, ast.AugAssign) and p_.value is n_ and isinstance(p_.op, ast.Add):
                         ok = True
                     elif isinstance(p_, ast.Call) and call_name(p_) == "len" and p_.args == [n_]:
@@ -270,9 +293,18 @@ def reader_rules(ctx, R):
                 st = stmt_of(c)
                 if isinstance(st, ast.Assign) and isinstance(st.targets[0], ast.Name):
                     recv_var = st.targets[0].id
+                recv_vars = {recv_var} if recv_var else set()
+                grew_ = True
+                while grew_ and recv_vars:
+                    grew_ = False
+                    for a_ in walk_no_nested(lin.node):
+                        if isinstance(a_, ast.Assign) and isinstance(a_.value, ast.Name) and a_.value.id in recv_vars and len(a_.targets) == 1 \
+                                and isinstance(a_.targets[0], ast.Name) and a_.targets[0].id not in recv_vars:
+                            recv_vars.add(a_.targets[0].id)
+                            grew_ = True
 
-                def eof_fact(fact, recv_var=recv_var):
-                    return recv_var is not None and establishes_empty(fact, recv_var)
+                def eof_fact(fact, recv_vars=recv_vars):
+                    return any(establishes_empty(fact, rv) for rv in recv_vars)
 
                 if recv_var and ((s.kind == "fact" and eof_fact(s)) or cfgl.guarded(x, eof_fact, exc=True)):
                     ctx.notice("M4", "line reader leaves its loop when recv returns b'' (end of stream) and yields an empty line; "
